@@ -17,6 +17,17 @@ void abtmc_spin_hint(int site, const void *ctx);
 #define ABTI_VERIF_SPIN_HINT(site, ctx) ((void)0)
 #endif
 
+/* With ABT_CONFIG_VERIF_MC, every (re)initialization of a ULT context tells the
+ * checker which stack the new incarnation is going to use, so that a sanitizer
+ * build can forget the frames abandoned by the previous user of that stack. */
+#ifdef ABT_CONFIG_VERIF_MC
+void abtmc_stack_init(void *p_stacktop, size_t stacksize);
+#define ABTI_VERIF_STACK_INIT(p_stacktop, stacksize)                           \
+    abtmc_stack_init((p_stacktop), (stacksize))
+#else
+#define ABTI_VERIF_STACK_INIT(p_stacktop, stacksize) ((void)0)
+#endif
+
 #define ABTI_VERIF_SITE_SPINLOCK 1
 #define ABTI_VERIF_SITE_QUEUE_LOCK 2
 #define ABTI_VERIF_SITE_JOINER_LINK 3
